@@ -572,6 +572,18 @@ func (r *Region) Reach(target Ev, stop Ev) (Item, []*ssa.BasicBlock) {
 		blocked := false
 		for i := s.i; i < len(b.Instrs); i++ {
 			it := Item{In: b.Instrs[i]}
+			if _, isRet := b.Instrs[i].(*ssa.Return); isRet && b.Parent() != r.Fi.Fn {
+				// the return of an immediately-invoked literal is not an event of the function under analysis:
+				// go on after its call
+				if pt, ok := resumeAfter(b); ok {
+					if _, ok := parent[pt.B]; !ok && pt.B != b {
+						parent[pt.B] = b
+					}
+					stack = append(stack, wstate{pt.B, pt.I, nil})
+				}
+				blocked = true
+				break
+			}
 			if target(it) {
 				return it, pathTo(parent, b)
 			}
@@ -660,6 +672,16 @@ func (r *Region) Escape(avoid Ev) (bool, []*ssa.BasicBlock) {
 		blocked := false
 		for i := s.i; i < len(b.Instrs); i++ {
 			in := b.Instrs[i]
+			if _, isRet := in.(*ssa.Return); isRet && b.Parent() != r.Fi.Fn {
+				if pt, ok := resumeAfter(b); ok {
+					if _, ok := parent[pt.B]; !ok && pt.B != b {
+						parent[pt.B] = b
+					}
+					stack = append(stack, wstate{pt.B, pt.I, nil})
+				}
+				blocked = true
+				break
+			}
 			if avoid != nil && avoid(Item{In: in}) {
 				blocked = true
 				break
@@ -776,6 +798,13 @@ func (r *Region) Find(ev Ev) []Item {
 		dead := false
 		for i := s.i; i < len(b.Instrs); i++ {
 			it := Item{In: b.Instrs[i]}
+			if _, isRet := b.Instrs[i].(*ssa.Return); isRet && b.Parent() != r.Fi.Fn {
+				if pt, ok := resumeAfter(b); ok {
+					stack = append(stack, wstate{pt.B, pt.I, nil})
+				}
+				dead = true
+				break
+			}
 			if ev(it) && !seenItem[b.Instrs[i]] {
 				seenItem[b.Instrs[i]] = true
 				out = append(out, it)
